@@ -216,7 +216,7 @@ def run(prop, tier):
     if tier == "quick":
         bounds = dict(size_max=3)
         if not os.environ.get("VERIF_ALLSEEDS"):
-            names = [n for i, n in enumerate(names) if i % 2 == vseed % 2]
+            pass  # quick also covers every seed (detection must not depend on the rotation)
     else:
         bounds = dict(size_max=4, idx_max=5, stmt_budget=2500)
     jobs = [dict(seeds=names[b : b + 2], bounds=bounds, rngseed=vseed, tier=tier) for b in range(0, len(names), 2)]
